@@ -20,7 +20,7 @@ package types
 //@ smt (define-fun-rec shr ((x Int) (n Int)) Int (ite (<= n 0) x (shr (div x 2) (- n 1))))
 
 //@ func VerifyMerkelProof
-//@ property C04 C03 C05
+//@ property C04 C03 C05 C19
 //@ ensures sound: result ==> len(txid) == 32 && len(root) == 32 && len(proof)%32 == 0 && climb(proof, 0, len(proof)/32, txid, index) == root
 //@ ensures position_bound: result ==> shr(index, len(proof)/32) == 0
 //@ ensures complete: (len(txid) == 32 && len(root) == 32 && len(proof)%32 == 0 && climb(proof, 0, len(proof)/32, txid, index) == root && shr(index, len(proof)/32) == 0) ==> result
